@@ -22,7 +22,7 @@ def one(diff):
     finally:
         shutil.rmtree(tmp, ignore_errors=True)
     return diff, out
-diffs = sorted(glob.glob(os.path.join(sys.argv[1], '*.diff')))
+diffs = sorted(glob.glob(os.path.join(os.path.abspath(sys.argv[1]), '*.diff')))
 with concurrent.futures.ThreadPoolExecutor(max_workers=8) as ex:
     for diff, out in ex.map(one, diffs):
         print('==', os.path.basename(diff), 'SILENT' if not out else 'ALARM')
